@@ -23,9 +23,9 @@ from llama_agents.server._store.abstract_workflow_store import (
     stream_workflow_ticks,
 )
 from typing_extensions import override
-from workflows.context.serializers import JsonSerializer
+from workflows.context.serializers import BaseSerializer, JsonSerializer
 from workflows.context.state_store import infer_state_type
-from workflows.events import Event, WorkflowIdleEvent
+from workflows.events import Event, StartEvent, WorkflowIdleEvent
 from workflows.runtime.control_loop import (
     rebuild_state_from_ticks,
     rebuild_state_from_ticks_stream,
@@ -161,6 +161,8 @@ class DBOSIdleReleaseDecorator(BaseRuntimeDecorator):
             raise ValueError("lifecycle_lock is required")
         self._lifecycle_lock_factory = lifecycle_lock
         self._lifecycle_lock_instance: RunLifecycleLock | None = None
+        # run_id -> task writing the run's initial 'active' lifecycle row
+        self._lifecycle_registrations: dict[str, asyncio.Task[None]] = {}
 
     @property
     def _journal_crud(self) -> JournalCrud | None:
@@ -195,6 +197,40 @@ class DBOSIdleReleaseDecorator(BaseRuntimeDecorator):
         task.add_done_callback(self._background_tasks.discard)
         return task
 
+    @override
+    def run_workflow(
+        self,
+        run_id: str,
+        workflow: Workflow,
+        init_state: BrokerState,
+        start_event: StartEvent | None = None,
+        serialized_state: dict[str, Any] | None = None,
+        serializer: BaseSerializer | None = None,
+    ) -> ExternalRunAdapter:
+        adapter = super().run_workflow(
+            run_id,
+            workflow,
+            init_state,
+            start_event=start_event,
+            serialized_state=serialized_state,
+            serializer=serializer,
+        )
+        # A run needs an 'active' lifecycle row before begin_release can claim
+        # it; without one the CAS never succeeds and the run is never released.
+        self._lifecycle_registrations[run_id] = self._spawn_task(
+            self._register_lifecycle(run_id)
+        )
+        return adapter
+
+    async def _register_lifecycle(self, run_id: str) -> None:
+        try:
+            lifecycle = await self._get_lifecycle()
+            await lifecycle.create(run_id)
+        except Exception:
+            logger.warning(
+                f"Failed to create lifecycle row for run_id={run_id}", exc_info=True
+            )
+
     def _schedule_deferred_release(self, run_id: str) -> None:
         """Cancel any existing timer for run_id and schedule a new one."""
         self._cancel_deferred_release(run_id)
@@ -224,6 +260,9 @@ class DBOSIdleReleaseDecorator(BaseRuntimeDecorator):
 
     async def _release_idle_handler(self, run_id: str) -> None:
         """Release an idle handler by sending TickIdleRelease."""
+        registration = self._lifecycle_registrations.pop(run_id, None)
+        if registration is not None:
+            await registration
         lifecycle = await self._get_lifecycle()
         if not await lifecycle.begin_release(run_id):
             return
